@@ -42,6 +42,10 @@ func sridBytes(s int) []int {
 	if s == 0 {
 		return []int{}
 	}
+	if s < 0 || s > math.MaxUint32 {
+		// not the value of any unsigned 32-bit SRID word (e.g. a sign-extended one): equal to no SRID of the specification
+		return []int{-1}
+	}
 	u := uint32(s)
 	return []int{int(u >> 24), int(u >> 16 & 255), int(u >> 8 & 255), int(u & 255)}
 }
